@@ -19,14 +19,15 @@ PART = {
                  "Fixes.all = the repaired reader); it reaches the C code through the byte-equality tie of the writer and the "
                  "field-equality tie of the reader (op `wr`, component `file`)",
                  "hypotheses of C01_roundtrip = those of C05_spec_reader_accepts_writer: codec UNCOMPRESSED / SNAPPY / LZ4 / LZ4_RAW "
-                 "(GZIP / ZSTD go through zlib / libzstd); at least one column, flat REQUIRED / OPTIONAL columns, FLBA with positive "
+                 "(GZIP / ZSTD go through zlib / libzstd); at least one column, flat REQUIRED / OPTIONAL / REPEATED columns, FLBA with positive "
                  "length, C-string names (SchemaOk); arrays as long as the counts say, values of the column's type, aligned columns "
                  "(HistOk; alignment is not used by this proof, see C01_roundtrip_sizes); file below 2 GiB, at most 32768 row "
                  "groups, chunk num_values and total_uncompressed_size below 2^31 (FileSizesOk); every call and the close returned OK",
-                 "REPEATED columns excluded (ColOk): after F60 the writer gives them max_def_level 1, the page writer then writes "
-                 "repetition levels; the reader half's page theorem (PageShape.notRepeated) does not cover them yet"],
+                 "REPEATED columns are covered since component rep2 (PageShape / readDataPageV1_pageBody for max_rep_level 1); "
+                 "Impl.Reader.Table holds definition levels and dense values per entry, the repetition levels the reader returns "
+                 "are covered by the page-load theorems (decodedOf) and by C01_roundtrip_any_consumption (tableRows carries them)"],
     trusted_base=[],
-    text="FILE-LEVEL ROUND TRIP, proved (C01_roundtrip): for every schema of flat REQUIRED / OPTIONAL columns, codec UNCOMPRESSED / "
+    text="FILE-LEVEL ROUND TRIP, proved (C01_roundtrip): for every schema of flat REQUIRED / OPTIONAL / REPEATED columns, codec UNCOMPRESSED / "
          "SNAPPY / LZ4 / LZ4_RAW, page size and write history respecting the documented preconditions of write_batch and whose file "
          "fits the C integer types: if every call and the close returned OK, carquet's reader model - opened through "
          "carquet_reader_open without or with mmap or through carquet_reader_open_buffer, with or without checksum verification, "
